@@ -40,6 +40,10 @@ def gen_cfg(rnd, i=0):
                    n_inner=[1, 2][(i // 12) % 2], d=3)
     elif i % 12 in (0, 6) and cfg["storage"] != "tree" and not cfg["imputer"].startswith("tree"):
         cfg["cyclic"] = True        # a short recorded list of row objects played round and round (an explained row may already sit in the storage)
+    elif i % 12 == 10:      # a river metric object shared by all replays of the process as the loss function
+        cfg.update(model="linear", loss_kind="river-shared", metric=["MAE", "MSE", "RMSE"][(i // 12) % 3])
+        if cfg["explainer"] in ("batch", "interval"):
+            cfg["explainer"] = "pfi"
     elif i % 12 == 9:       # ... and explainers built entirely from library defaults
         cfg.update(explainer=["sage", "pfi"][(i // 12) % 2], storage="library-default", imputer="joint")
     return cfg
@@ -122,6 +126,7 @@ def interleaved(cfg, seed, cfg_b, seed_b):
 # RiverWrapper over label predictions keeps the set of labels seen so far: its output is not a function of the input alone, so a
 # caching twin would be a DIFFERENT model (first version of the identity twin raised a false alarm here; pure models only)
 STATEFUL_MODELS = ("river-bound", "river-labels")
+_METRICS = {}
 _NAMES = {}
 _STREAMS = {}     # observation lists are built once and REPLAYED (the same dict objects), like a user's in-memory data set
 
@@ -210,6 +215,10 @@ def scenario_gen(cfg, seed):
             if key not in cache:
                 cache[key] = inner(x)
             return cache[key]
+    if cfg.get("loss_kind") == "river-shared" and cfg.get("model") == "linear":
+        # ONE river metric object (created once per process) serves as the loss of every replay, as a user's module-level METRIC would
+        import river.metrics as _rm
+        loss = _METRICS.setdefault(cfg.get("metric", "MAE"), getattr(_rm, cfg.get("metric", "MAE"))())     # noqa: F811
     kind, st_kind, imp_kind = cfg["explainer"], cfg["storage"], cfg["imputer"]
     if kind == "interval":
         st_kind = "interval"
